@@ -80,6 +80,22 @@ def run(F, rep, tier):
         else:
             rep.viol('R15.1', '%s|%s' % (fk, kind), 'unreviewed machine arithmetic (%s x%d) on input-derived values in the front end (%s): an over-long literal overflows' % (kind, len(lst), fk), lst[0][0].loc(lst[0][1]))
     rep.floor('R15.1', 'arithmetic asserts in the front end', nar, 10)
+    # indexing in the front end (token / character buffers, digit strings): same census as C14 R14.9
+    from .census import index_sites
+    peri = {}
+    for fk, kind, b_, bb_, auto in index_sites(C, front):
+        if not auto:
+            peri.setdefault((fk, kind), []).append((b_, bb_))
+    for (fk, kind), lst in sorted(peri.items()):
+        ent = None
+        for rx, k, cnt, reason in T.INDEX_TABLE:
+            if k == kind and re.search(rx, fk):
+                ent = (cnt, reason)
+                break
+        if ent and len(lst) <= ent[0]:
+            rep.ok('R15.1', '%s index:%s x%d' % (fk, kind, len(lst)), 'reviewed: ' + ent[1])
+        else:
+            rep.viol('R15.1', '%s|index:%s' % (fk, kind), 'unreviewed indexing (%s x%d) in the front end (%s): malformed or truncated source text must be a parse error, not an out-of-range / char-boundary panic' % (kind, len(lst), fk), lst[0][0].loc(lst[0][1]))
     # the \\u accumulator
     sb = F.body(F.anchor("lex::Lexer::<'a>::lex_simple_string_after_start"))
     sat = [c for c in sb.calls if c.target.rsplit('::', 1)[-1] in ('saturating_mul', 'checked_mul', 'saturating_add', 'checked_add')]
